@@ -172,6 +172,14 @@ impl SauceData {
                 buffer_size.width = ((file_type as u16) << 1) as i32;
                 sauce_file_type = SauceFileType::Bin;
                 use_ice = (t_flags & ANSI_FLAG_NON_BLINK_MODE) == ANSI_FLAG_NON_BLINK_MODE;
+                match t_flags & ANSI_MASK_LETTER_SPACING {
+                    ANSI_LETTER_SPACING_9PX => use_letter_spacing = true,
+                    _ => {}
+                }
+                match t_flags & ANSI_MASK_ASPECT_RATIO {
+                    ANSI_ASPECT_RATIO_STRETCH => use_aspect_ratio = true,
+                    _ => {}
+                }
                 font_opt = Some(t_info_str.to_string());
             }
             SauceDataType::XBin => {
@@ -550,6 +558,10 @@ impl Buffer {
                 }
                 file_type = w as u8;
                 if matches!(self.ice_mode, IceMode::Ice) { t_flags |= ANSI_FLAG_NON_BLINK_MODE; }
+                if let Some(sauce_data) = self.get_sauce() {
+                    if sauce_data.use_aspect_ratio { t_flags |= ANSI_ASPECT_RATIO_STRETCH; }
+                    if sauce_data.use_letter_spacing { t_flags |= ANSI_LETTER_SPACING_9PX; }
+                }
             },
             SauceFileType::XBin => {
                 data_type = SauceDataType::XBin;
